@@ -55,6 +55,7 @@ TEnd    == Is("End") /\ (IF phase = "done" THEN Same ELSE AtEof(0))
 TFatal  == /\ Is("Fatal")
            /\ \/ E.cls = "underflow" /\ phase = "fatal" /\ Same
               \/ E.cls = "rejectoverflow" /\ FatalRejectOverflow
+              \/ E.cls = "pushback" /\ FatalPushback
 
 TNext == \/ TReset \/ TRead \/ TTok \/ TReject \/ TActEnd \/ TRet \/ TLess \/ TMore \/ TUnput \/ TInput
          \/ TBegin \/ TPush \/ TPop \/ TPopU \/ TTop \/ TSetBol \/ TEof \/ TEnd \/ TFatal
